@@ -38,10 +38,24 @@ func c20Convex[V univers.Version[V], VR univers.VersionRange[V]](e univers.Ecosy
 	vv.Reached()
 	vv.Assume(!c01AlpmMixedPkgrel(e.Name(), a, b, c))
 	vv.Assume(!vv.Known("KF-C01-alpm-direct-suffix-heuristic", alpmGlued(e.Name(), r, a, b, c)))
-	vv.Assume(!vv.Known("KF-C20-composer-caret-tilde-stability", composerShorthand(e.Name(), r)))
+	vv.Assume(!vv.Known("KF-C20-composer-caret-tilde-stability", composerShorthand(e.Name(), r) && (hasQualifierLetter(a) || hasQualifierLetter(b) || hasQualifierLetter(c))))
 	vv.Assert(convexOK(va.Compare(vb), vb.Compare(vc), vr.Contains(va), vr.Contains(vb), vr.Contains(vc)), "C20: conjunctive range is not convex")
 }
 
 func composerShorthand(eco, r string) bool {
 	return eco == "composer" && len(r) > 0 && (r[0] == '^' || r[0] == '~')
+}
+
+// hasQualifierLetter: a letter other than a leading v/V (stability suffixes, branch names).
+func hasQualifierLetter(s string) bool {
+	for i := 0; i < len(s); i++ {
+		c := s[i]
+		if (c >= 'a' && c <= 'z') || (c >= 'A' && c <= 'Z') {
+			if i == 0 && (c == 'v' || c == 'V') {
+				continue
+			}
+			return true
+		}
+	}
+	return false
 }
